@@ -1,6 +1,6 @@
-(* C28 witness histories (DEFINITIONS ONLY).  w_fwd .. w_intfull are the witnesses of the seven findings fixed in
-   /repo (commits 8f0490a a847df1 0e115d7 9c96190 09348e1 a0471f9): on the code as it was they reached a defect
-   class, on the repaired code they are regular.  w_zsep is the witness of the surviving class F_ZSEP.  Each of them is also a replay line run on the real code (known_findings.d/C28.json).
+(* C28 witness histories (DEFINITIONS ONLY).  w_fwd .. w_intfull and w_zsep are the witnesses of the eight findings
+   fixed in /repo (commits 8f0490a a847df1 0e115d7 9c96190 09348e1 a0471f9 691ce2c): on the code as it was they
+   reached a defect class, on the repaired code they are regular.  Each of them is also a replay line run on the real code (known_findings.d/C28.json).
    Values are (length, tag) pairs; keys are "k00" .. "k15". *)
 From Coq Require Import ZArith List Bool.
 From TV Require Import Lib.MachInt Gen.Varint Model.BTree Model.BTreeSpec.
@@ -43,9 +43,9 @@ Definition w_intfull : list (op wval) :=
   ++ map (fun j => OInsert (wtiny j) (8000, j + 33)) (zrange 182 0)
   ++ [OInsert ([65; 6] ++ repeat 97 998 ++ [1]) (6000, 215)].
 
-(* class F_ZSEP (finding F-C28-8): four ascending keys of 8200 bytes.  Each leaf holds one cell; the second
+(* former class F_ZSEP (finding F-C28-8, fixed by 691ce2c): four ascending keys of 8200 bytes.  Each leaf holds one cell; the second
    separator does not fit beside the first, split_interior (2 separators) leaves the new right interior page
-   WITHOUT separators, and the next split below it evaluates `cell_count() as usize - 1` on it *)
+   WITHOUT separators, and the next split below it used to evaluate `cell_count() as usize - 1` on it *)
 Definition whuge (i : Z) : key := [65; i + 1] ++ repeat 97 8198.
 Definition w_zsep : list (op wval) := map (fun i => OInsert (whuge i) (1, i + 1)) [0; 1; 2; 3].
 
